@@ -78,7 +78,8 @@ async def _check(case, ctx: Ctx) -> CaseResult:
     spec = case['spec']
     async with SCase(case, ctx) as sc:
         if sc.rejected:
-            return CaseResult([], False, ['rejected:' + sc.rejected])
+            return CaseResult(sc.crash_violations('C03'), False,
+                              ['rejected:' + sc.rejected])
         sim, to_int = sc.sim, sc.drv.to_int
         stall_limit = {}
 
